@@ -227,6 +227,11 @@ SHAPES = {
     "animate-inside-helper": "lcd = LCD(i2c_addr=0x27)\ndef show():\n    lcd.animate('scroll', 0, 'hello', speed_ms=100, loop=True)\nshow()\nwhile True:\n    sleep(5)\n",
     "for-variable-read-after-the-loop": "mon = SerialMonitor(9600)\nt = 0\nfor i in range(3):\n    t = t + i\nmon.write(i)\n",
     "helper-respecialised-from-the-main-loop-with-a-loop-local-of-the-same-name": "mon = SerialMonitor(9600)\ndef scale(v):\n    r = v * 2\n    return r\nwhile True:\n    r = 1\n    a = scale(3)\n    g = 1.5\n    b = scale(g)\n    mon.write(a + b + r)\n    sleep(5)\n",
+    "animate-inside-the-main-loop": "lcd = LCD(i2c_addr=0x27)\nlcd.animate('blink', 0, 'boot', speed_ms=100)\nk = 0\nwhile True:\n    k = k + 1\n    if k == 3:\n        lcd.animate('scroll', 1, 'third pass', speed_ms=50, loop=True)\n    lcd.animate('typewriter', 0, 'again', speed_ms=20)\n    sleep(5)\n",
+    "chain-with-a-loop-local-left-operand": "led = Led(13)\nmon = SerialMonitor(9600)\nwhile True:\n    low = 100\n    if low < analog_read(0) < 900:\n        led.on()\n    mon.write(low)\n    sleep(5)\n",
+    "chain-with-a-parameter-left-operand": "led = Led(13)\ndef beyond(near):\n    return near < analog_read(1) < 150\nwhile True:\n    if beyond(20):\n        led.on()\n    sleep(5)\n",
+    "chain-with-a-for-index-left-operand": "led = Led(13)\ndef level(pin):\n    return analog_read(pin) / 100\nwhile True:\n    for step in range(8):\n        if step < level(0) <= 10:\n            led.toggle()\n    sleep(5)\n",
+    "chain-with-a-loop-local-right-operand": "led = Led(13)\nwhile True:\n    high = 900\n    if 100 < analog_read(0) < high:\n        led.on()\n    sleep(5)\n",
     "empty-script": "",
     "only-imports-and-sleep": "while True:\n    sleep(100)\n",
     "string-functions": "mon = SerialMonitor(9600)\ndef tag(s, n):\n    return s + str(n)\nt = tag('k', 3)\nmon.write(t)\nmon.write(len(t))\n",
